@@ -29,7 +29,7 @@ DRIVER = "simrun"
 
 INVS = {
     "C05": ["ClockStep", "Window", "Consistent", "Monotone", "TimerExact"],
-    "C11": ["StepResult", "RunResult", "RunInTime", "NoRepoll"],
+    "C11": ["StepResult", "RunResult", "RunInTime", "NoRepoll", "PanicSurfaces"],
     "C04": ["GuardsRan", "StopsDead", "NotRunning", "TablesEmpty", "PeersUnblocked", "Rebind",
             "StaleConnect", "StaleDatagram", "FactoryOnce", "Undisturbed"],
 }
@@ -60,7 +60,7 @@ def sc(**kw):
     """constants of SimCrash"""
     c = dict(LatSteps=1, Tick=2, Cap=1, MaxConn=1, Ops={"listen", "accept", "connect", "read", "write"},
              Faults={"crash", "bounce"}, Targets={1}, MaxOps=5, MaxFaults=1, MaxSteps=5, Lis=1,
-             LatChoices=set(), MaxLat=0, Writers={1, 2}, Early=False, WriterFixed=True, HalfOpenFixed=True)
+             LatChoices=set(), MaxLat=0, Writers={1, 2}, Early=False, EphPorts=0, WriterFixed=True, HalfOpenFixed=True)
     c.update(kw)
     return c
 
@@ -97,6 +97,9 @@ def mc_configs(pid, tier):
                                TOuts={"none", "Never"}, RandomOrder=True, CtlOps={"register", "step", "bounce"},
                                MaxCtl=5)),
         ]
+        # the duration is exceeded with a client unfinished and the test keeps stepping / registers more nodes
+        cfgs.append(("mc_clock_overrun", sr(Tick=2, Duration=3, MaxNodes=2, Waits={1}, MaxPat=1, Outs={"Never"},
+                                            TOuts={"none"}, CtlOps={"register", "step", "run"}, MaxCtl=6)))
         # repeated / idempotent fault calls: crash of a crashed or finished host, bounce of a running host, ...
         cfgs.append(("mc_clock_refault", sr(Tick=3, Duration=100, MaxNodes=1, Kinds={"host"}, Waits={1}, MaxPat=1,
                                             Outs={"Never", "Ok"}, TOuts={"none"},
@@ -153,6 +156,9 @@ def gen_configs(pid, tier):
                 ("gen_clock_t5", sr(Tick=5, Duration=100, Waits={1, 2, 7}, MaxPat=1, Outs={"Ok", "Never"}, TWaits={3},
                                     TOuts={"none", "Never"}, CtlOps={"register", "step", "bounce"}, MaxCtl=4,
                                     DetTies=True))]
+        cfgs.append(("gen_clock_overrun", sr(Tick=2, Duration=3, MaxNodes=2, Waits={1}, MaxPat=1, Outs={"Never"},
+                                             TOuts={"none"}, CtlOps={"register", "step", "run"}, MaxCtl=6,
+                                             DetTies=True)))
         cfgs.append(("gen_clock_refault", sr(Tick=3, Duration=100, MaxNodes=1, Kinds={"host"}, Waits={1}, MaxPat=1,
                                              Outs={"Never", "Ok"}, TOuts={"none"},
                                              CtlOps={"register", "step", "crash", "bounce"}, MaxCtl=8 if q else 9,
@@ -180,6 +186,10 @@ def gen_configs(pid, tier):
                 ("gen_crash_reorder", sc(Ops={"listen", "accept", "connect", "write"}, Faults={"crash"}, Targets={1},
                                          Writers={2}, Early=True, Cap=2, LatChoices={1, 3}, MaxLat=2, MaxOps=6,
                                          MaxFaults=1, MaxSteps=6)),
+                # a narrow ephemeral port range (2 ports) and repeated connects / crash / bounce of the connector:
+                # the ports of refused and abandoned connects must be free again when the allocation wraps
+                ("gen_crash_ports", sc(Ops={"connect"}, Faults={"crash", "bounce"}, Targets={2}, MaxConn=3, MaxOps=3,
+                                       MaxFaults=2, MaxSteps=5, EphPorts=2)),
                 # several hosts selected by one regex call (adjacent crash 1, crash 2 = one Sim::crash(Regex)),
                 # also when the first member of the group is already down
                 ("gen_crash_regex", sc(Ops={"bg"}, Faults={"crash", "bounce"} if not q else {"crash"}, Targets={1, 2},
@@ -268,13 +278,13 @@ def need_actions(pid, consts):
 
 def prop_trace_consts(pid, a):
     if is_crash(pid):
-        return dict(LatSteps=a["lat"])
+        return dict(LatSteps=a["lat"], EphPorts=a.get("eph", 0))
     return dict(Tick=a["tick"], Duration=a["duration"], Epoch=a["epoch"])
 
 
 def impl_trace_consts(pid, a):
     if is_crash(pid):
-        return dict(LatSteps=a["lat"], Tick=a["tick"], Cap=a["cap"], MaxConn=100000, Ops=TCP | UDP,
+        return dict(LatSteps=a["lat"], EphPorts=a.get("eph", 0), Tick=a["tick"], Cap=a["cap"], MaxConn=100000, Ops=TCP | UDP,
                     Faults={"crash", "bounce"}, Targets={1, 2}, MaxOps=10 ** 6, MaxFaults=10 ** 6, MaxSteps=10 ** 6,
                     LatChoices=set(range(1, 17)), MaxLat=10 ** 6, Writers={1, 2}, Early=False,
                     WriterFixed=True, HalfOpenFixed=True, Lis=a.get("lis", 1))
@@ -286,7 +296,7 @@ def impl_trace_consts(pid, a):
 def driver_args(pid, a):
     if is_crash(pid):
         return [f"tick={a['tick']}", f"lat={a['lat']}", f"cap={a['cap']}", f"lis={a.get('lis', 1)}",
-                f"ip={a.get('ip', 4)}"]
+                f"ip={a.get('ip', 4)}", f"eph={a.get('eph', 0)}"]
     return [f"tick={a['tick']}", f"duration={a['duration']}", f"epoch={a['epoch']}"]
 
 
@@ -294,7 +304,8 @@ def args_of_consts(pid, c, name=""):
     if is_crash(pid):
         # configurations whose name ends in _v6 are executed on an IPv6 simulation (sockets bind `::`,
         # groups are joined with join_multicast_v6); the specs do not depend on the address family
-        return dict(tick=c["Tick"], lat=c["LatSteps"], cap=c["Cap"], lis=c["Lis"], ip=6 if name.endswith("_v6") else 4)
+        return dict(tick=c["Tick"], lat=c["LatSteps"], cap=c["Cap"], lis=c["Lis"], ip=6 if name.endswith("_v6") else 4,
+                    eph=c.get("EphPorts", 0))
     return dict(tick=c["Tick"], duration=c["Duration"], epoch=c["Epoch"])
 
 
